@@ -230,6 +230,14 @@ def run_c12(pid, spec, res, st, tier, seed, helpers):
         errs.append(('missing file named on stdin', ['-f', '-'], missing.encode()))
         errs.append(('empty stdin', ['-'], b''))
         errs.append(('non-UTF-8 stdin', ['-'], b'ab\xff\xfe\n'))
+        # invalid bytes only AFTER valid lines, in the last unterminated line, with CRLF — on all three channels (seed C12c:
+        # a reader that stops at the first undecodable line would print a regex for the lines before it)
+        for tag, data in (('later line', b'abc\nabd\n\xff\xfe\nxyz\n'), ('later line CRLF', b'abc\r\nabd\r\n\xff\xfe\r\nxyz\r\n'),
+                          ('last line without newline', b'abc\nabd\nxy\xff'), ('truncated UTF-8 sequence', b'abc\n\xe2\x82')):
+            fpath = os.path.join(tmpd, 'bad_%s.txt' % tag.replace(' ', '_')); open(fpath, 'wb').write(data)
+            errs.append(('non-UTF-8 file', ['-f', fpath], None))
+            errs.append(('non-UTF-8 stdin', ['-'], data))
+            errs.append(('non-UTF-8 file named on stdin', ['-f', '-'], fpath.encode()))
         errs.append(('zero repetitions', ['--min-repetitions', '0', 'a'], None))
         errs.append(('zero substring length', ['--min-substring-length', '0', 'a'], None))
         errs.append(('surrogates without escape', ['--with-surrogates', 'a'], None))
@@ -237,9 +245,9 @@ def run_c12(pid, spec, res, st, tier, seed, helpers):
             rc, out, err = run_cli(args, inp)
             runs += 1
             e = err.decode('utf-8', 'replace')
-            if rc == 0 or 'panicked' in e or rc == 101 or not e.strip():
+            if rc == 0 or 'panicked' in e or rc == 101 or not e.strip() or (name.startswith('non-UTF-8') and out.strip()):
                 fails.append(({'tcs': [], 'f': '', 'id': -1}, {'kind': 'cli-error', 'detail': '%s: exit %d, stderr %r' % (name, rc, e[:300]), 'args': args}))
-            elif name in ('empty file', 'non-UTF-8 file', 'missing file', 'missing file named on stdin', 'empty stdin', 'non-UTF-8 stdin') and len(e.strip().splitlines()) != 1:
+            elif name in ('empty file', 'non-UTF-8 file', 'missing file', 'missing file named on stdin', 'empty stdin', 'non-UTF-8 stdin', 'non-UTF-8 file named on stdin') and len(e.strip().splitlines()) != 1:
                 fails.append(({'tcs': [], 'f': '', 'id': -1}, {'kind': 'cli-error', 'detail': '%s: error message is not one line: %r' % (name, e[:300]), 'args': args}))
         # a blank-only file is the legitimate test case [""]
         rc, out, err = run_cli(['-f', blank]); runs += 1
@@ -297,6 +305,15 @@ for c in cases:
             elif f == 'e': b = b.with_escaping_of_non_ascii_chars(False)
             elif f == 'E': b = b.with_escaping_of_non_ascii_chars(True)
         b = b.with_minimum_repetitions(c.get('mr', 1)).with_minimum_substring_length(c.get('ms', 1))
+        # a rejected setter call must leave the builder as it was (the library panics before touching its
+        # configuration): the ValueError is caught and the same builder is built (seed C14d)
+        for rej in c.get('rej', []):
+            try:
+                if rej[0] == 'mr': b.with_minimum_repetitions(rej[1])
+                else: b.with_minimum_substring_length(rej[1])
+                raise AssertionError('no ValueError for %%r' %% (rej,))
+            except ValueError:
+                pass
         p = b.build()
     except BaseException as e:
         out.append({'id': c['id'], 'exc': repr(e)}); continue
@@ -351,8 +368,16 @@ def run_c14(pid, spec, res, st, tier, seed, helpers):
             if 'e' not in fl and 'E' not in fl:
                 fl.append(rnd.choice(['e', 'e', 'E'])); c['f'] = ','.join(fl)
             c['tcs'][rnd.randrange(len(c['tcs']))] += [rnd.choice(forced)] * rnd.randint(1, 3)
+        if i % 4 == 0:
+            c['rej'] = [rnd.choice([['mr', 0], ['mr', -1], ['ms', 0], ['ms', -3], ['mr', -2 ** 31]]) for _ in range(rnd.randint(1, 2))]
+            fl = flags_of(c)
+            if rnd.random() < 0.7 and 'r' not in fl:
+                fl.append('r'); c['f'] = ','.join(fl)
+            if rnd.random() < 0.5:
+                c['mr'] = rnd.choice([2, 3]); c['ms'] = rnd.choice([1, 2, 3])
+                c['tcs'].append(rnd.choice([[97, 97, 98, 97, 98], [97, 98, 97, 98, 97, 98], [120, 97, 97, 97, 121], [120, 97, 97, 121]]))
     impl = runner.run_impl(cs)
-    p = subprocess.run([sys.executable, '-c', PYRUN % PYDIR], input=json.dumps([{k: c[k] for k in ('id', 'tcs', 'f', 'mr', 'ms')} for c in cs]).encode(),
+    p = subprocess.run([sys.executable, '-c', PYRUN % PYDIR], input=json.dumps([{k: c[k] for k in ('id', 'tcs', 'f', 'mr', 'ms', 'rej') if k in c} for c in cs]).encode(),
                        capture_output=True, timeout=3600)
     if p.returncode != 0:
         res['broken'].append('Python runner failed: ' + p.stderr.decode('utf-8', 'replace')[-800:])
@@ -361,7 +386,11 @@ def run_c14(pid, spec, res, st, tier, seed, helpers):
     pyres = {r['id']: r for r in pr['results']}
     # the Coq model of the rewrite (Model/PyRewrite.v, extracted) on the library's outputs
     outs = [impl[c['id']]['out'] for c in cs if impl.get(c['id']) and impl[c['id']].get('out') is not None]
-    rc2, out2, err2 = sh([os.path.join(BUILD, 'extracted', 'pydriver')], inp=("\n".join(",".join(map(str, o)) for o in outs) + "\n").encode())
+    pyd = os.path.join(BUILD, 'extracted', 'pydriver')
+    if os.path.exists(pyd):
+        rc2, out2, err2 = sh([pyd], inp=("\n".join(",".join(map(str, o)) for o in outs) + "\n").encode())
+    else:
+        rc2, out2, err2 = 1, '', 'build/extracted/pydriver was not built'
     model_rw = {}
     if rc2 != 0:
         res['broken'].append('the extracted py_rewrite model is not available (gen/SrcPython.v does not build?): ' + err2[-300:])
@@ -434,6 +463,10 @@ def run_c17(pid, spec, res, st, tier, seed, helpers):
             items.insert(rnd.randrange(len(items) + 1), None)     # a non-string JS value is filtered out
         if rnd.random() < 0.03:
             items = [None] * rnd.randint(0, 2)                     # nothing usable: must throw the library's message
+        elif rnd.random() < 0.04:
+            items = [[]] * rnd.randint(1, 3)                       # only empty strings: these ARE test cases (library: ^$) — seed C17d
+        elif rnd.random() < 0.04:
+            items = [[]] + items                                    # an empty string next to others
         calls = []
         for _ in range(rnd.randint(0, 8)):
             name = rnd.choice(WASM_CALLS)
